@@ -57,12 +57,16 @@ def budget(tier):
     return dict(examples=10000, shards=16, shrink_calls=3000)
 
 
-def _tree(depth):
+SHORTCUTS = ["Tgas", "T32", "invT", "Te", "invTe", "lnTe", "sqrTgas"]  # what KROME offers to rates and to @var lines alike
+
+
+def _tree(depth, variables=None, species=True):
+    variables = variables or VARS
     leaf = st.one_of(
         st.sampled_from(NUMS).map(lambda t: ["num", t]),
-        st.sampled_from(VARS).map(lambda v: ["var", v]),
-        st.sampled_from(VARS).map(lambda v: ["var", v]),
-        st.sampled_from(sorted(SPECIES)).map(lambda s: ["n", s]),
+        st.sampled_from(variables).map(lambda v: ["var", v]),
+        st.sampled_from(variables).map(lambda v: ["var", v]),
+        st.sampled_from(sorted(SPECIES)).map(lambda s: ["n", s]) if species else st.sampled_from(variables).map(lambda v: ["var", v]),
         st.sampled_from(NUMS).map(lambda t: ["neg", ["num", t]]),
     )
 
@@ -78,7 +82,12 @@ def _tree(depth):
 
 @st.composite
 def _case(draw, depth):
-    kind = draw(st.sampled_from(["grammar"] * 8 + ["near-miss"] * 2 + ["shape"]))
+    kind = draw(st.sampled_from(["grammar"] * 8 + ["near-miss"] * 2 + ["shape", "var-definition"]))
+    if kind == "var-definition":
+        # the user variable a rate refers to is defined by an @var line whose right-hand side is a Fortran expression as well:
+        # the rate coefficient the generated EvalRates computes is the Fortran value of <rate> with that definition
+        return {"kind": "var-definition", "tree": draw(_tree(min(depth, 3), variables=SHORTCUTS, species=False)), "sp": draw(st.sampled_from(["", " "])),
+                "seedvals": draw(st.integers(0, 10 ** 6))}
     if kind == "shape":
         # <identifier><sign><literal>**<x> with nothing else at that level: the unchanged translator reads every member of this family
         # correctly (unlike the recorded glued-literal finding, which needs a further additive term); kept as a family of its own so
@@ -329,6 +338,8 @@ def check_case(case, tier):
             labels.append("family-" + case["family"])
         feats = FT.features(tree)
         return CaseResult(failures, True, labels + sorted(feats), sample={"fortran": case["text"], "c": ctext})
+    if case["kind"] == "var-definition":
+        return check_var_definition(case, failures, labels)
     tree = case["tree"]
     if FT.has_int_division(tree):
         return CaseResult(discarded=True)
@@ -373,6 +384,60 @@ def check_case(case, tier):
 
 def _rename(tree):
     return tree
+
+
+def check_var_definition(case, failures, labels):
+    """`@var:vt_v = <expr>` + a rate `1.0d-10*vt_v`: k[0] of the rendered EvalRates against the Fortran value."""
+    import tempfile, os
+    from .. import ratecase as RC
+    from ..ctext.lexer import CParseError
+    from naunet.network import Network
+
+    tree = case["tree"]
+    if FT.has_int_division(tree):
+        return CaseResult(discarded=True)
+    text = FT.render(tree, sp=case["sp"])
+    seed = case["seedvals"]
+    feats = FT.features(tree)
+    with N.Scratch() as d:
+        path = os.path.join(d, "n.krome")
+        with open(path, "w") as f:
+            f.write(f"@var:vt_v = {text}\n@format:idx,R,R,P,P,rate\n1,H,H,H2,,1.0d-10*vt_v\n")
+        try:
+            net = Network(filelist=path, fileformats="krome")
+            proj = RC.render_rates(net, d / "p", backends=(("cvode", "dense", "cpu"),))["dense"]
+        except Exception as e:
+            # refused at generation time: allowed
+            return CaseResult([], False, labels + ["var-definition-refused"], sample={"var": text, "outcome": type(e).__name__})
+        for k in range(3):
+            T = 5.0 + 995.0 * math.modf((seed + 1) * 0.6180339887498949 + (k + 1) * 0.5698402909980532)[0]
+            te = T * 8.617343e-5
+            env = {"Tgas": T, "T32": T / 300.0, "invT": 1.0 / T, "Te": te, "invTe": 1.0 / te, "lnTe": math.log(te), "sqrTgas": math.sqrt(T)}
+            try:
+                want = 1.0e-10 * float(FT.evaluate(tree, env, {}))
+            except (ZeroDivisionError, OverflowError, ValueError):
+                return CaseResult(discarded=True)
+            if want != want or abs(want) == float("inf"):
+                return CaseResult(discarded=True)
+            try:
+                kk, _ = RC.eval_rates(proj, {"Tgas": T, "nH": 1.0e4})
+                got = float(kk[0])
+            except (CInvalidC, CParseError, UndeclaredSymbol) as e:
+                decl = next((ln.strip() for ln in (proj.path / "src" / "naunet_rates.cpp").read_text().splitlines() if "vt_v =" in ln), "?")
+                failures.append(("krome/var-definition-not-translated", f"@var:vt_v = {text} is emitted as `{decl}`, which is not the C expression of that Fortran text ({type(e).__name__}: {e})"))
+                break
+            if not (R.close(got, want, 1e-11) or (got != got and want != want)):
+                # the same text as a rate expression: a defect of the translator itself (the recorded signed-literal findings) keeps its own key
+                sub = []
+                compare_text(text, tree, seed, sub, [])
+                if sub:
+                    failures.extend(sub)
+                    break
+                decl = next((ln.strip() for ln in (proj.path / "src" / "naunet_rates.cpp").read_text().splitlines() if "vt_v =" in ln), "?")
+                failures.append(("krome/var-definition-not-translated", f"@var:vt_v = {text} is emitted as `{decl}`: k[0] = {got!r} but the Fortran value is {want!r} at Tgas = {T!r}"))
+                break
+    return CaseResult(failures, bool(feats & {"d-exponent", "pow-nonliteral", "pow-chain", "same-level-chain"}), labels + ["var-definition"] + sorted(feats),
+                      sample={"var": text})
 
 
 def post_phase(tier, seed):
